@@ -17,7 +17,7 @@ CHECKS = {
                 "MapPollard configurations (full and partial, TotalRows from {0..6,8,16,31,32,33,62,63} or uniform 0..63; half of the partial ones 'direct': Modify without a preceding Verify(remember) when every deleted leaf is already cached; before a third of the blocks a partial forest is asked to Prune a drawn subset of what it remembers) and compared with the "
                 "reference model after every block, plus the same survivors re-batched (one-shot / split / re-cut). Non-trivial: some block deletes and "
                 "some block adds and at least one of: a whole tree emptied, an empty root overwritten by additions, TreeRows changes, a leaf at row>=2. "
-                "Distinct by SHA-256 of the case JSON.",
+                "Distinct by SHA-256 of the case JSON. Sizes: forests up to 96 leaves / 14 blocks, 1 case in 40 up to 640 leaves / 26 blocks / 300 additions per block (thorough: 1100 / 40 / 200, 1 in 8 up to 2600 / 48 / 700, 1 in 48 up to 12000 leaves with blocks of thousands). Before the generated search, deterministic scale probes: a hand-shaped history on 2^9, 2^12 and 2^13 leaves (thorough up to 2^15) with leaves climbing two rows, a half emptied with n/2 targets, climbed leaves deleted together with row-0 twins of the same block, and a power-of-two crossing, on 2 map configurations each.",
         "assumptions": COMMON_ASSUME,
     },
     "C02": {
@@ -28,7 +28,7 @@ CHECKS = {
                 "in ascending, descending or rapid-permuted order) sent to Pollard, a full MapPollard and a partial MapPollard (restricted to the leaves it "
                 "was asked to remember); each proof compared hash-for-hash with the model's canonical proof and fed to Verify, Pollard.Verify and every "
                 "MapPollard.Verify; Verify's root indexes compared as a set with the trees holding the targets. Non-trivial case: contains a request with "
-                ">=2 targets in which a sibling hash is omitted because it is computable or a target sits above row 0. Distinct by case hash.",
+                ">=2 targets in which a sibling hash is omitted because it is computable or a target sits above row 0. Distinct by case hash. Sizes as in C01; deterministic scale probes on 2^9..2^13 (thorough 2^15) leaves ask after every block for a stride-permuted half, a descending third and all live leaves.",
         "assumptions": COMMON_ASSUME,
     },
     "C16": {
@@ -38,7 +38,7 @@ CHECKS = {
         "rule": "two parts. Enumerated (complete, dealt over shards): heights 0..7 (thorough 0..9): every position x {DetectRow, Parent, Left/RightChild, "
                 "ParentMany/ChildMany for every rise/drop incl. out of range}; every leaf count x {TreeRows, RootPositions}; every node of every forest x "
                 "DetectOffset (validated by walking the returned bits from the geometric root); ProofPositions for every non-empty leaf subset of n<=16 "
-                "(thorough 20) leaves in layouts Rows(n), Rows(n)+1 and 63. Generated (rapid): heights 0..63 with boundary offsets/leaf counts and random "
+                "(thorough 20) leaves in layouts Rows(n), Rows(n)+1 and 63. Also enumerated: 27 (thorough 54) LARGE ProofPositions instances - forests of 20000..65536 (150000) leaves with tens of thousands of mixed-row non-nested targets built from a fixed pattern - in the same three layouts. Generated (rapid): heights 0..63 with boundary offsets/leaf counts and random "
                 "64-bit values, mixed-row non-nested target sets. Non-trivial: (height>=1 and row>=1) or >=2 targets or n>=2; generated points that fall "
                 "inside the enumerated sub-space are not counted again.",
         "assumptions": ["independent geometry of harness/model (row r of an R-row layout starts at 2^(R+1)-2^(R+1-r))", "translatePos is unexported: covered through MapPollard coordinates in C01/C02/C09/C10"],
@@ -161,7 +161,7 @@ CHECKS["C06"] = {
             "deleted or undone leaf, GetHash of every existing node, canonical proofs of 6 probe subsets, tracked-leaf count); (2) after each undo the "
             "instance equals the snapshot taken right before the undone block (positions of every hash ever added, GetHash at every position <= maxPos, "
             "byte-identical proofs); (3) at the end it equals a fresh replica that only saw the surviving blocks. Non-trivial: contains an undo of a block "
-            "that both deleted and added and emptied a tree / overwrote an empty root / changed TreeRows.",
+            "that both deleted and added and emptied a tree / overwrote an empty root / changed TreeRows. Sizes as in C01 (without the 12000-leaf cases); deterministic scale probes: the C01 scale history on 2^9 and 2^13 leaves (thorough up to 2^14) undone to depth 3, another branch applied, everything undone to the empty forest.",
     "assumptions": COMMON_ASSUME + ["for a partial forest only what the property forces is compared: remembered leaves' positions and proofs, true hashes, required positions stored; leaves it was asked to remember later (Verify with remember is not undone by Undo) may stay tracked"],
 }
 MANIFEST_TEXT["C06"] = {
